@@ -131,6 +131,8 @@ BytesQuick    == {<<90, 10>>}                                           \* "Z\n"
 \* ... a long run (the compressible class) and content that ends without white space
 BytesThorough == {<<90, 10>>, [i \in 1..64 |-> 120] \o <<10>>, <<90>>}
 \* page-number lists: single, unsorted, the same number twice, out of range and 0, a repeat around another number
+BytesTwo      == {<<90, 10>>, <<90>>}                                 \* with / without trailing white space
+NumsTwo       == {<<1>>, <<1, 1>>}
 NumsQuick     == {<<1>>, <<2, 1>>, <<1, 1>>}
 NumsThorough  == {<<1>>, <<2>>, <<2, 1>>, <<1, 1>>, <<3>>, <<0, 2>>, <<2, 4, 2>>}
 
@@ -154,6 +156,9 @@ StartsIns2     == {St("AB", c, r, 0, FALSE, 0) : c \in {"ref", "arr1", "arr2", "
                                                  r \in {"none", "rootref", "rootcat", "rootx", "shared", "both"}}
 StartsObj1     == {St("AB", "dup", "rootref", 2, TRUE, 1)}
 StartsObj      == {St("AB", "dup", "rootref", 2, TRUE, 1), St("A", "arr2", "none", 1, FALSE, 1)}
+
+StartsAll3     == {St("AmB", c, "rootref", 1, FALSE, 0) : c \in {"arr1", "dup", "refarr"}}
+                  \cup {St("AB", "ref", "both", 2, TRUE, 1), St("mABC", "dup", "pageref", 1, FALSE, 1)}
 
 StartsThorough ==
     {St(t, c, r, 1, FALSE, 0) : t \in {"AB", "AmB"}, c \in {"ref", "arr1", "arr2", "dup", "refarr", "missing"},
